@@ -27,6 +27,7 @@ func init() { Registry["C08"] = c08 }
 type c08def struct {
 	Kind string // schema | param | header
 	Def  string
+	Flat bool `json:"-"` // no nested schema: shorter sequences and two map policies in the quick tier
 }
 
 type longLived interface {
@@ -81,14 +82,12 @@ func c08call(v longLived, val any) (out hx.Outcome) {
 func c08defs(quick bool) []c08def {
 	var out []c08def
 	for _, a := range gen.Atoms() {
-		if !strings.ContainsAny(a, "[{") || len(a) < 12 {
+		if a == "{}" {
 			continue
 		}
-		// keep atoms that have sub-validators (a nested schema somewhere)
-		if strings.Count(a, "{") < 2 {
-			continue
-		}
-		out = append(out, c08def{"schema", gen.WithDefs(a)})
+		// every atom: the ones with nested schemas own sub-validators, the flat ones own the leaf
+		// validators (enum, numeric, string, type, format) that a long-lived validator reuses too
+		out = append(out, c08def{"schema", gen.WithDefs(a), strings.Count(a, "{") < 2})
 	}
 	extra := []string{
 		`{"type":"object","properties":{"a":{"type":"array","items":{"type":"object","properties":{"n":{"type":"integer","maximum":2}},"required":["n"]}}},"patternProperties":{"^x":{"type":"string"}},"additionalProperties":false}`,
@@ -98,13 +97,13 @@ func c08defs(quick bool) []c08def {
 		`{"allOf":[{"properties":{"a":{"type":"integer"}}},{"properties":{"b":{"type":"string"}},"required":["b"]}],"dependencies":{"a":{"required":["c"]}}}`,
 	}
 	for _, e := range extra {
-		out = append(out, c08def{"schema", e})
+		out = append(out, c08def{"schema", e, false})
 	}
 	for _, p := range c04params {
-		out = append(out, c08def{"param", p})
+		out = append(out, c08def{"param", p, false})
 	}
 	for _, h := range c04headers {
-		out = append(out, c08def{"header", h})
+		out = append(out, c08def{"header", h, false})
 	}
 	return out
 }
@@ -141,7 +140,7 @@ func c08worker(c *hx.Ctx) int {
 	rep := hx.NewReport()
 	sets := hx.NewSetAdder()
 	defs := c08defs(c.Quick())
-	maxLen, maxAlpha := 3, 12
+	maxLen, maxAlpha := 3, 8
 	if !c.Quick() {
 		maxLen, maxAlpha = 4, 9
 	}
@@ -158,7 +157,8 @@ func c08worker(c *hx.Ctx) int {
 		verifrt.SetPoolPolicy(verifrt.PolicyLIFO)
 		var cand []string
 		if d.Kind == "schema" {
-			cand = gen.Instances
+			// plus values that print like another one but are of another JSON type
+			cand = append(append([]string(nil), gen.Instances...), `"1"`, `"true"`, `"null"`, `"2.5"`, `{"a":"1"}`, `["1"]`, `"[1]"`, `[true]`)
 		} else {
 			cand = c04paramValues
 		}
@@ -180,6 +180,12 @@ func c08worker(c *hx.Ctx) int {
 			if seenOut[o.Key()] < 2 && len(alpha) < maxAlpha {
 				seenOut[o.Key()]++
 				alpha = append(alpha, v)
+				continue
+			}
+			// always keep the pairs of values that print alike but differ in JSON type
+			switch v {
+			case `1`, `"1"`, `true`, `"true"`, `{"a":1}`, `{"a":"1"}`:
+				alpha = append(alpha, v)
 			}
 		}
 		if len(alpha) == 0 {
@@ -190,6 +196,10 @@ func c08worker(c *hx.Ctx) int {
 			rep.Samples = append(rep.Samples, map[string]any{"validator": d, "values": alpha})
 		}
 		// all sequences up to maxLen
+		maxLen, npol := maxLen, 8
+		if d.Flat && c.Quick() {
+			maxLen, npol = 2, 2
+		}
 		var seqs [][]string
 		var rec func(p []string)
 		rec = func(p []string) {
@@ -208,7 +218,7 @@ func c08worker(c *hx.Ctx) int {
 			if len(seq) < 2 && maxLen > 1 {
 				continue // prefixes are covered by the longer sequences
 			}
-			for pol := 0; pol < 8; pol++ {
+			for pol := 0; pol < npol; pol++ {
 				for _, pp := range []int{verifrt.PolicyLIFO, verifrt.PolicyFIFO} {
 					if pp == verifrt.PolicyFIFO && pol > 1 {
 						continue
